@@ -522,6 +522,8 @@ def b_const(s):
             y, mo, d, h, mi, sec, us = s["v"]
             if a == 1:
                 return P.TimestampConstant(ts_text(s["v"]))
+            if (h, mi, sec, us) == (0, 0, 0, 0):
+                return P.TimestampConstant(datetime.date(y, mo, d))      # a date stands for its midnight
             return P.TimestampConstant(datetime.datetime(y, mo, d, h, mi, sec, us, tzinfo=datetime.timezone.utc))
     if k == "str":
         return P.StringConstant(s["v"])
